@@ -559,7 +559,7 @@ void decl_summary(std::ostringstream& os, const std::vector<MDecl>& ds)
             os << "  var " << d.name << " dims=" << d.dims << " " << tagstr(d.tags) << "\n";
     for (auto& d : ds)
         if (d.kind == MDecl::FUN)
-            os << "  fun " << d.name << " " << tagstr(d.tags) << "\n";
+            os << "  fun " << d.name << " " << tagstr(d.tags) << " shape=" << d.shape << "\n";
     for (auto& d : ds)
         if (d.kind == MDecl::TYPEDEF)
             os << "  typedef " << d.name << " " << tagstr(d.tags) << "\n";
